@@ -102,7 +102,7 @@ def main():
         }],
         "checks": checks,
         "notes": "All checks: exit 0 = held on everything explored; exit 1 + 'VIOLATION property=<id> replay=<path>'; exit 2 = harness error (no verdict). "
-                 "Genuine defects found on the pinned tree (23) were repaired by 'fix:' commits in /repo and are recorded in /verif/known_findings.json under 'fixed'; three genuine deviations that are not small safe repairs are listed there under 'open' and printed as KNOWN-FINDING by ./check C03, ./check C17 and ./check C19 (DESIGN.md 12.4). "
+                 "Genuine defects found on the pinned tree (30) were repaired by 'fix:' commits in /repo and are recorded in /verif/known_findings.json under 'fixed'; four genuine deviations that are not small safe repairs are listed there under 'open' and printed as KNOWN-FINDING by ./check C03, ./check C17, ./check C18 and ./check C19 (DESIGN.md 12.4). "
                  "Seeded property-breaking changes and which checks catch them: /verif/seeded/ and DESIGN.md sections 10 and 12.6.",
         "not_applicable": na,
     }
